@@ -101,6 +101,24 @@ def run(prog, rep, tier='quick'):
                 report_conflicts(rep, 'scale-once', itp, ('nfft', 'hz'), 'speriodogram,' + label, seen)
                 check_sink(rep, 'scale-once', fsp.qname, label, 'psd', v,
                            {'nfft': F(1 if scale else 0), 'hz': F(-1 if scale else 0)}, loc(fsp.mod, fsp.node))
+    # the Daniell smoother averages that periodogram: the returned pair (psd, frequencies) carries the periodogram's exponents
+    fd = prog.func('periodogram', 'DaniellPeriodogram')
+    for scale in (False, True):
+        for cplx in (False, True):
+            label = 'scale_by_freq=%s,%s' % (scale, 'complex' if cplx else 'real')
+            v, itp = C.run_function(prog, 'periodogram', 'DaniellPeriodogram', [C.data(cplx), Const(2)],
+                                    {'NFFT': C.nfft('even'), 'sampling': C.sampling(), 'scale_by_freq': Const(scale),
+                                     'detrend': Const(False), 'window': StrV('window')})
+            nctx += 1
+            if blocked(rep, 'scale-once', fd.qname, label, itp):
+                continue
+            if not (isinstance(v, Tup) and len(v.items) == 2):
+                rep.undecided('scale-once', fd.qname, label, 'no (psd, frequencies) pair returned', loc(fd.mod, fd.node))
+                continue
+            report_conflicts(rep, 'scale-once', itp, ('nfft', 'hz'), 'DaniellPeriodogram,' + label, seen)
+            check_sink(rep, 'scale-once', fd.qname, label, 'psd', v.items[0],
+                       {'nfft': F(1 if scale else 0), 'hz': F(-1 if scale else 0)}, loc(fd.mod, fd.node))
+            check_sink(rep, 'axis-units', fd.qname, label, 'frequencies', v.items[1], {'hz': F(1)}, loc(fd.mod, fd.node))
     # arma2psd branches
     f = prog.func('arma', 'arma2psd')
     rho = Num({**zero_deg(), 's': F(2)}, (), False)
